@@ -21,6 +21,8 @@ import (
 	"sync"
 	"syscall"
 	"time"
+
+	"github.com/markkurossi/mpc/p2p"
 )
 
 func verifRepo() string {
@@ -39,7 +41,13 @@ var (
 // buildGarbledCLI builds <repo>/apps/garbled into the run directory (once per process).
 func buildGarbledCLI(c *Ctx) (string, error) {
 	cliOnce.Do(func() {
-		out := filepath.Join(c.OutDir, "garbled-cli")
+		// absolute: the build runs with the tree as its working directory, and nothing may be
+		// written there
+		out, err := filepath.Abs(filepath.Join(c.OutDir, "garbled-cli"))
+		if err != nil {
+			cliErr = err
+			return
+		}
 		cmd := exec.Command("go", "build", "-o", out, "./apps/garbled")
 		cmd.Dir = verifRepo()
 		cmd.Env = append(os.Environ(), "GOFLAGS=-mod=readonly", "GOPROXY=off") // never writes go.mod / go.sum of the tree
@@ -238,4 +246,262 @@ func tailString(s string, n int) string {
 		return s[len(s)-n:]
 	}
 	return s
+}
+
+// ---------------------------------------------------------------- more CLI doors (door sweep)
+
+var cliAnyResultRE = regexp.MustCompile(`^Result\[([0-9]+)\]: (.*)$`)
+
+// cliAllResults: the "Result[k]: v" lines in order, as "k=v" with booleans as 0/1.
+func cliAllResults(out []byte) []string {
+	var res []string
+	s := bufio.NewScanner(bytes.NewReader(out))
+	s.Buffer(make([]byte, 1<<20), 1<<20)
+	for s.Scan() {
+		if m := cliAnyResultRE.FindStringSubmatch(s.Text()); m != nil {
+			v := m[2]
+			switch v {
+			case "true":
+				v = "1"
+			case "false":
+				v = "0"
+			}
+			res = append(res, m[1]+"="+v)
+		}
+	}
+	return res
+}
+
+// cliEval is one running `garbled -e ...` process.
+type cliEval struct {
+	cmd     *exec.Cmd
+	mu      sync.Mutex
+	out     bytes.Buffer
+	errOut  bytes.Buffer
+	done    chan struct{}
+	stopped bool
+}
+
+func (e *cliEval) stdout() []byte {
+	e.mu.Lock()
+	defer e.mu.Unlock()
+	return append([]byte(nil), e.out.Bytes()...)
+}
+
+func (e *cliEval) stop() {
+	if e.stopped {
+		return
+	}
+	e.stopped = true
+	syscall.Kill(-e.cmd.Process.Pid, syscall.SIGKILL)
+	<-e.done
+	e.cmd.Wait()
+}
+
+// startCLIEvaluator starts the evaluator and waits until it listens.
+func startCLIEvaluator(ctx context.Context, bin string, env []string, args ...string) (*cliEval, error) {
+	e := &cliEval{done: make(chan struct{})}
+	e.cmd = exec.CommandContext(ctx, bin, args...)
+	e.cmd.Env = append(os.Environ(), env...)
+	e.cmd.SysProcAttr = &syscall.SysProcAttr{Setpgid: true}
+	po, err := e.cmd.StdoutPipe()
+	if err != nil {
+		return nil, err
+	}
+	e.cmd.Stderr = &e.errOut
+	if err := e.cmd.Start(); err != nil {
+		return nil, err
+	}
+	listening := make(chan struct{})
+	go func() {
+		defer close(e.done)
+		var once sync.Once
+		s := bufio.NewScanner(po)
+		s.Buffer(make([]byte, 1<<20), 1<<20)
+		for s.Scan() {
+			e.mu.Lock()
+			e.out.WriteString(s.Text() + "\n")
+			e.mu.Unlock()
+			if len(s.Text()) >= 9 && s.Text()[:9] == "Listening" {
+				once.Do(func() { close(listening) })
+			}
+		}
+	}()
+	select {
+	case <-listening:
+		return e, nil
+	case <-e.done:
+		e.cmd.Wait()
+		e.stopped = true
+		return nil, fmt.Errorf("exited before listening: %s", tailString(e.errOut.String(), 400))
+	case <-time.After(30 * time.Second):
+		e.stop()
+		return nil, fmt.Errorf("did not start listening: %s", tailString(e.errOut.String(), 400))
+	}
+}
+
+const c02CLIProgram2 = `// -*- go -*-
+
+package main
+
+func main(a, b uint16) (uint16, bool, uint32) {
+	return a + b, a > b, uint32(a) * uint32(b)
+}
+`
+
+func c02CLIPlain2(a, b uint16) []string {
+	gt := "0"
+	if a > b {
+		gt = "1"
+	}
+	return []string{fmt.Sprintf("0=%d", a+b), "1=" + gt, fmt.Sprintf("2=%d", uint32(a)*uint32(b))}
+}
+
+// c02CLIMore: apps/garbled through its flags, file kinds and environment.  Per evaluator process
+// (each an evaluator LOOP serving its garblers in sequence) every garbler and the evaluator must
+// print f(x, y) (three outputs) for every session:
+//
+//	E1  garbled -e -v -d prog.mpcl     garblers: plain; -v; -d with GOMAXPROCS=1 GOGC=1; a peer that
+//	                                   connects, shakes hands, sends the key and goes away (the loop
+//	                                   tolerates the io.EOF of such a session); then a plain garbler again
+//	E2  garbled -e prog.mpclc          (made by garbled -circ) garblers: the .mpclc file; the .mpcl source
+//	E3  garbled -e prog.bristol        (made by garbled -circ -format bristol) garbler: the .bristol file
+//	E4  garbled -stream -e             garbler: garbled -stream prog.mpcl (streaming front end; the streaming
+//	                                   protocol itself is C05's)
+func c02CLIMore(c *Ctx) error {
+	bin, err := buildGarbledCLI(c)
+	if err != nil {
+		return err
+	}
+	dir, err := filepath.Abs(filepath.Join(c.OutDir, "c02cli2"))
+	if err != nil {
+		return err
+	}
+	if err := os.MkdirAll(dir, 0o755); err != nil {
+		return err
+	}
+	defer os.RemoveAll(dir)
+	prog := filepath.Join(dir, "three.mpcl")
+	if err := os.WriteFile(prog, []byte(c02CLIProgram2), 0o644); err != nil {
+		return err
+	}
+	ctx, cancel := context.WithTimeout(context.Background(), 120*time.Second)
+	defer cancel()
+	for _, format := range []string{"mpclc", "bristol"} {
+		out, err := exec.CommandContext(ctx, bin, "-circ", "-format", format, prog).CombinedOutput()
+		if _, serr := os.Stat(filepath.Join(dir, "three."+format)); err != nil || serr != nil {
+			c.Fail("c02:cli:circ-compile:"+format, "garbled -circ -format "+format+" did not produce the circuit file", tailString(string(out), 600))
+			return nil
+		}
+	}
+	r := c.rng.Fork()
+	type gsess struct {
+		name  string
+		args  []string // before -port
+		env   []string
+		file  string
+		abort bool
+	}
+	type escen struct {
+		name  string
+		eargs []string
+		file  string // "" = none (streaming evaluator)
+		gs    []gsess
+	}
+	scens := []escen{
+		{"evaluator -v -d, MPCL source", []string{"-e", "-v", "-d"}, prog, []gsess{
+			{name: "plain", file: prog},
+			{name: "-v", args: []string{"-v"}, file: prog},
+			{name: "-d, GOMAXPROCS=1 GOGC=1", args: []string{"-d"}, env: []string{"GOMAXPROCS=1", "GOGC=1"}, file: prog},
+			{name: "peer that leaves after the key", abort: true},
+			{name: "plain, after the aborted session", file: prog},
+		}},
+		{"evaluator on the .mpclc file", []string{"-e"}, filepath.Join(dir, "three.mpclc"), []gsess{
+			{name: ".mpclc file", file: filepath.Join(dir, "three.mpclc")},
+			{name: ".mpcl source against the .mpclc evaluator", file: prog},
+		}},
+		{"evaluator on the .bristol file", []string{"-e"}, filepath.Join(dir, "three.bristol"), []gsess{
+			{name: ".bristol file", file: filepath.Join(dir, "three.bristol")},
+		}},
+		{"streaming evaluator", []string{"-stream", "-e"}, "", []gsess{
+			{name: "-stream", args: []string{"-stream"}, file: prog},
+		}},
+	}
+	for _, sc := range scens {
+		addr, err := freeLoopbackAddr()
+		if err != nil {
+			return err
+		}
+		b := uint16(r.U64())
+		eargs := append(append([]string(nil), sc.eargs...), "-port", addr, "-i", fmt.Sprint(b))
+		if sc.file != "" {
+			eargs = append(eargs, sc.file)
+		}
+		ev, err := startCLIEvaluator(ctx, bin, nil, eargs...)
+		if err != nil {
+			c.Fail("c02:cli:flags:evaluator-did-not-start", "apps/garbled "+sc.name+": "+err.Error(), fmt.Sprint(eargs))
+			continue
+		}
+		var expected []string
+		failed := false
+		for gi, g := range sc.gs {
+			c.Hist("cli:doors:session")
+			if g.abort {
+				// a peer that completes the size handshake, sends the session key and closes
+				nc, err := net.Dial("tcp", addr)
+				if err == nil {
+					conn := p2p.NewConn(nc)
+					if _, err = conn.ReceiveInputSizes(); err == nil {
+						conn.SendInputSizes([]int{16})
+						conn.Flush()
+						conn.SendData(r.Bytes(32))
+						conn.Flush()
+					}
+					conn.Close()
+				}
+				time.Sleep(100 * time.Millisecond)
+				continue
+			}
+			a := uint16(r.U64())
+			want := c02CLIPlain2(a, b)
+			expected = append(expected, want...)
+			gargs := append(append([]string(nil), g.args...), "-port", addr, "-i", fmt.Sprint(a), g.file)
+			gc := exec.CommandContext(ctx, bin, gargs...)
+			gc.Env = append(os.Environ(), g.env...)
+			out, err := gc.CombinedOutput()
+			c.Eval(fmt.Sprintf("cli2|%s|%s|%d|%d", sc.name, g.name, a, b), true)
+			got := cliAllResults(out)
+			if err != nil || fmt.Sprint(got) != fmt.Sprint(want) {
+				time.Sleep(300 * time.Millisecond)
+				what := "garbler printed wrong results"
+				if err != nil {
+					what = "garbler process failed: " + err.Error()
+				}
+				var earlier []string
+				for _, p := range sc.gs[:gi] {
+					earlier = append(earlier, p.name)
+				}
+				c.Fail("c02:cli:flags:session-failed",
+					fmt.Sprintf("apps/garbled, %s; garbler %q (earlier peers of this evaluator: %v): %s", sc.name, g.name, earlier, what),
+					map[string]interface{}{"program": c02CLIProgram2, "garbler_args": fmt.Sprint(gargs), "garbler_env": fmt.Sprint(g.env), "evaluator_args": fmt.Sprint(eargs),
+						"want": fmt.Sprint(want), "garbler_printed": fmt.Sprint(got), "garbler_output": tailString(string(out), 600),
+						"evaluator_stdout": tailString(string(ev.stdout()), 600), "evaluator_stderr": tailString(ev.errOut.String(), 600)})
+				failed = true
+				break
+			}
+		}
+		if !failed {
+			deadline := time.Now().Add(10 * time.Second)
+			for time.Now().Before(deadline) && len(cliAllResults(ev.stdout())) < len(expected) {
+				time.Sleep(50 * time.Millisecond)
+			}
+		}
+		ev.stop()
+		if got := cliAllResults(ev.stdout()); !failed && fmt.Sprint(got) != fmt.Sprint(expected) {
+			c.Fail("c02:cli:flags:evaluator-results-differ", "apps/garbled, "+sc.name+": the evaluator printed results that differ from f(x, y) of the sessions it served",
+				map[string]interface{}{"evaluator_args": fmt.Sprint(eargs), "evaluator_printed": fmt.Sprint(got), "want": fmt.Sprint(expected),
+					"evaluator_stdout": tailString(string(ev.stdout()), 600), "evaluator_stderr": tailString(ev.errOut.String(), 600)})
+		}
+	}
+	return nil
 }
